@@ -1,6 +1,9 @@
 import Driver.Proto
 import PqModel.DeltaGo
 import PqModel.DeltaKernel
+import PqModel.DeltaConf
+import PqModel.DeltaUnpack
+import PqModel.DeltaAmd64
 
 /-! Ops of C04 / DELTA encodings.
 
@@ -11,6 +14,16 @@ import PqModel.DeltaKernel
 * `dba.encflba <size> <hex>` -> `ok <hex>`; `dlba.encraw <src hex> <offsets>` -> `ok <hex>` (raw Go API input)
 * `delta.godec32 <hex>` / `delta.godec64 <hex>` -> `ok <signed ints>` | `err <class>`  (mirror of the Go decoder)
 * `dlba.godec <hex>` -> `ok <data hex> <offsets>` | `err <class>`; `dba.godec <hex>` -> `ok <values>` | `err <class>`
+* `delta.godecrest32 <hex>` / `delta.godecrest64 <hex>` -> `ok <signed ints> <number of unread bytes>` | `err <class>`
+  (the rest `decodeInt32/64` hand back: what DELTA_LENGTH_BYTE_ARRAY / DELTA_BYTE_ARRAY continue with)
+* `delta.conf32 <block size> <miniblocks> <total> <first> <blocks>` / `delta.conf64 …` -> `ok <hex> <signed ints>` |
+  `notok` (the description is not a well-formed `ConfStream`): bytes and meaning of a stream of the conformant
+  family (PqModel/DeltaConf.lean). `<blocks>`: `-` or blocks separated by `|`, each `<min delta>:<minis>:<stale>`,
+  `<minis>` separated by `;`, each `<width>/<packed values>`; `<stale>` = width bytes of the unneeded miniblocks.
+* `dba.godecamd64 <hex>` -> `ok <values>` | `err <class>`: mirror of `DecodeByteArray` as the assembly build runs it
+  (amd64 Go wrapper with the AVX2 kernels replaced by their contract, PqModel/DeltaAmd64.lean)
+* `delta.unpack32 <width> <n> <hex>` / `delta.unpack64 …` -> `ok <unsigned values>`: the mirror of the portable
+  `bitpack.Unpack` kernel (`goUnpackInt32` / `goUnpackInt64`) reading `n` values
 Value lists: comma separated hex strings, `e` = empty value, `-` = empty list. -/
 namespace Driver.Ops.C04Delta
 open Driver PqModel.Delta
@@ -57,8 +70,64 @@ def goInts {n : Nat} (r : Except GoErr (List (BitVec n) × List Nat)) : String :
   | .ok (xs, _) => s!"ok {showInts xs}"
   | .error e => s!"err {goErrName e}"
 
+def goIntsRest {n : Nat} (r : Except GoErr (List (BitVec n) × List Nat)) : String :=
+  match r with
+  | .ok (xs, rest) => s!"ok {showInts xs} {rest.length}"
+  | .error e => s!"err {goErrName e}"
+
+def parseMini? (s : String) : Option ConfMini :=
+  match s.splitOn "/" with
+  | [w, vs] =>
+    match parseNat? w, parseList? parseNat? vs with
+    | some w, some vs => some ⟨w, vs⟩
+    | _, _ => none
+  | _ => none
+
+def parseBlock? (s : String) : Option ConfBlock :=
+  match s.splitOn ":" with
+  | [md, ms, st] =>
+    match parseInt? md, (if ms == "-" then some [] else (ms.splitOn ";").mapM parseMini?), parseList? parseNat? st with
+    | some md, some ms, some st => some { minD := BitVec.ofInt 64 md, minis := ms, stale := st }
+    | _, _, _ => none
+  | _ => none
+
+def parseBlocks? (s : String) : Option (List ConfBlock) :=
+  if s == "-" then some [] else (s.splitOn "|").mapM parseBlock?
+
+def confOp (n : Nat) (bs m t f blocks : String) : String :=
+  match parseNat? bs, parseNat? m, parseNat? t, parseInt? f, parseBlocks? blocks with
+  | some bs, some m, some t, some f, some blocks =>
+    let s : ConfStream n := { blockSize := bs, minis := m, total := t, first := BitVec.ofInt n f, blocks := blocks }
+    if s.OK then s!"ok {bytesOut s.bytes} {showInts s.values}" else "notok"
+  | _, _, _, _, _ => "bad-op"
+
 def handle (toks : List String) : Option String :=
   match toks with
+  | ["delta.conf32", bs, m, t, f, blocks] => some (confOp 32 bs m t f blocks)
+  | ["delta.conf64", bs, m, t, f, blocks] => some (confOp 64 bs m t f blocks)
+  | ["dba.godecamd64", h] => some <|
+    match parseHex? h with
+    | some bs =>
+      match goDecodeDBAamd64 (bytesIn bs) with
+      | .ok vs => s!"ok {showVals vs}"
+      | .error e => s!"err {goErrName e}"
+    | none => "bad-op"
+  | ["delta.unpack32", w, n, h] => some <|
+    match parseNat? w, parseNat? n, parseHex? h with
+    | some w, some n, some bs => s!"ok {showList toString (PqModel.Rle.goUnpackInt32 w n (bytesIn bs))}"
+    | _, _, _ => "bad-op"
+  | ["delta.unpack64", w, n, h] => some <|
+    match parseNat? w, parseNat? n, parseHex? h with
+    | some w, some n, some bs => s!"ok {showList toString (goUnpackInt64 w n (bytesIn bs))}"
+    | _, _, _ => "bad-op"
+  | ["delta.godecrest32", h] => some <|
+    match parseHex? h with
+    | some bs => goIntsRest (goDecode32 (bytesIn bs))
+    | none => "bad-op"
+  | ["delta.godecrest64", h] => some <|
+    match parseHex? h with
+    | some bs => goIntsRest (goDecode64 (bytesIn bs))
+    | none => "bad-op"
   | ["delta.godec32", h] => some <|
     match parseHex? h with
     | some bs => goInts (goDecode32 (bytesIn bs))
